@@ -367,18 +367,36 @@ func (s *server) eval(prop, tier string, seed uint64, index int, t *Tapes) (*Res
 	if _, err := s.in.Write(append(req, '\n')); err != nil {
 		return nil, err
 	}
-	for s.out.Scan() {
-		l := s.out.Text()
-		if strings.HasPrefix(l, "RESULT ") {
-			var r Result
-			if err := json.Unmarshal([]byte(l[7:]), &r); err != nil {
-				return nil, err
-			}
-			raceToViolation(&r)
-			return &r, nil
-		}
+	// one evaluation gets a wall-clock limit: a candidate tape can drive the run into a
+	// long (though bounded) simulation; the server is killed and the candidate discarded
+	type res struct {
+		r   *Result
+		err error
 	}
-	return nil, fmt.Errorf("server died")
+	ch := make(chan res, 1)
+	go func() {
+		for s.out.Scan() {
+			l := s.out.Text()
+			if strings.HasPrefix(l, "RESULT ") {
+				var r Result
+				if err := json.Unmarshal([]byte(l[7:]), &r); err != nil {
+					ch <- res{nil, err}
+					return
+				}
+				raceToViolation(&r)
+				ch <- res{&r, nil}
+				return
+			}
+		}
+		ch <- res{nil, fmt.Errorf("server died")}
+	}()
+	select {
+	case x := <-ch:
+		return x.r, x.err
+	case <-time.After(150 * time.Second):
+		_ = s.cmd.Process.Kill()
+		return nil, fmt.Errorf("evaluation exceeded 150 s of wall-clock time; server killed")
+	}
 }
 
 func (s *server) stop() {
